@@ -156,6 +156,7 @@ def gen_gr_case(rng, big=False, kind=None):
         for i in range(d):
             for j in range(i):
                 H[i][j] = dec(rng, -2, 2, 2)
+        common.sparse_tilt(rng, H)
     ppp = [rng.choice(["0", "1"]) for _ in range(d)]
     if rng.random() < 0.5:
         ppp = ["1"] * d
@@ -871,6 +872,14 @@ def correspond(run):
         run.count(c, True)
         if w:
             fail.append((c, w))
+    # size stream for S(q): particle numbers (and selection sizes) at and around block boundaries 2^k, 3·2^k, 1000
+    for kind in (SQSIZE_KINDS if quick else SQSIZE_KINDS * 4):
+        c = gen_sqsize_case(run.rng, kind)
+        w = failing_scale(c)
+        run.hist("stream", "sqsize:" + kind); run.hist("sqsize_n", c["n"])
+        run.count(c, True)
+        if w:
+            fail.append((c, w))
     bad = cross_check_spec(run, cases[:40 if quick else 200])
     if bad:
         raise common.Infra("Lean Spec and the independent brute force disagree on " + op_line(bad[0])[:300])
@@ -897,8 +906,70 @@ def gen_scale_case(rng, kind):
     return p
 
 
+SQSIZE_KINDS = ["bool", "real", "complex", "vector", "ones"]
+SQSIZES = [32, 64, 96, 128, 255, 256, 257, 384, 500, 512, 768, 1000, 1024, 2048]
+
+
+def gen_sqsize_case(rng, kind):
+    """conditional_sq with n summed particles, n at / next to a block boundary; for a selection n of N particles are chosen"""
+    n = rng.choice(SQSIZES)
+    d = rng.choice([2, 3])
+    N = n + rng.choice([0, 1, 37, 88, n]) if kind == "bool" else n
+    vecs = []
+    while len(vecs) < 6:
+        v = [rng.randint(-3, 3) for _ in range(d)]
+        if any(v) and v not in vecs:
+            vecs.append(v)
+    return {"scale": True, "op": "sq", "skind": kind, "sseed": rng.randint(0, 10 ** 9), "n": n, "N": N, "d": d,
+            "L": [rng.choice(["6.5", "8", "9.25"]) for _ in range(d)], "vec": vecs, "qdtype": rng.choice(["int64", "float64"])}
+
+
+def failing_sqsize(c):
+    from PyMatterSim.reader.reader_utils import SingleSnapshot
+    from PyMatterSim.static.sq import conditional_sq
+    g = np.random.default_rng(c["sseed"])
+    N, n, d = c["N"], c["n"], c["d"]
+    L = np.array([float(x) for x in c["L"]])
+    pos = np.round(g.uniform(0.0, 1.0, size=(N, d)) * L, 3)
+    kind = c["skind"]
+    if kind == "bool":
+        cond = np.zeros(N, dtype=bool)
+        cond[g.permutation(N)[:n]] = True
+        w = cond.astype(float)[:, None]
+        norm = n
+    elif kind == "real":
+        cond = np.round(g.uniform(-2, 2, size=N), 3); w = cond[:, None]; norm = N
+    elif kind == "complex":
+        cond = np.round(g.uniform(-2, 2, size=N), 3) + 1j * np.round(g.uniform(-2, 2, size=N), 3); w = cond[:, None]; norm = N
+    elif kind == "vector":
+        cond = np.round(g.uniform(-2, 2, size=(N, d)), 3); w = cond; norm = N
+    else:
+        cond = np.ones(N); w = cond[:, None]; norm = N
+    qi = np.array(c["vec"], dtype=c["qdtype"])
+    q = np.array(c["vec"], dtype=float) * (2 * np.pi / L)[None, :]
+    amp = np.exp(-1j * (pos @ q.T)).T @ w                       # [nq, components]
+    exp = (np.abs(amp) ** 2).sum(axis=1) / norm
+    snap = SingleSnapshot(timestep=0, nparticle=N, particle_type=np.ones(N, dtype=int), positions=pos.copy(), boxlength=L.copy(),
+                          boxbounds=np.column_stack((np.zeros(d), L)), realbounds=None, hmatrix=np.diag(L))
+    try:
+        with np.errstate(all="ignore"):
+            res, _ave = conditional_sq(snap, qi, cond.copy())
+    except Exception as e:
+        return ("raise", f"real conditional_sq raised {type(e).__name__}: {e} ({n} of N = {N} particles summed, size stream)")
+    got = np.asarray(res["Sq"], dtype=float)
+    if got.shape != exp.shape:
+        return ("shape", f"conditional_sq returned {got.shape[0]} rows for {exp.shape[0]} wave vectors (size stream)")
+    for k in range(len(exp)):
+        if not abs(got[k] - exp[k]) <= 1e-6 + 1e-7 * abs(exp[k]):
+            return ("value", f"conditional_sq {kind} condition, {n} of N = {N} particles summed, q = {c['vec'][k]}: returned Sq = "
+                             f"{got[k]!r}, |Σ A_i exp(−iq·r_i)|²/n = {exp[k]!r}")
+    return None
+
+
 def failing_scale(c):
     """real conditional_gr on a large configuration against the numpy brute force of the statement"""
+    if c.get("op") == "sq":
+        return failing_sqsize(c)
     from gen import scale
     from PyMatterSim.reader.reader_utils import SingleSnapshot
     from PyMatterSim.static.gr import conditional_gr
@@ -944,6 +1015,8 @@ def failing_scale(c):
 
 
 def sig(c):
+    if c.get("scale") and c.get("op") == "sq":
+        return f"conditional_sq:size:{c['skind']}"
     if c.get("scale"):
         return f"conditional_gr:scale:{c['skind']}"
     cond = c["cond"]
@@ -1023,6 +1096,12 @@ def search(run, broken):
         for _ in range(n // 2):
             c0 = gen_sq_case(run.rng)
             pool += [c0, sibling_sq(run.rng, c0)]
+        for kind in SQSIZE_KINDS:                      # every block-boundary size once per kind of condition
+            for n in SQSIZES:
+                c0 = gen_sqsize_case(run.rng, kind)
+                c0["N"] = c0["N"] - c0["n"] + n if kind == "bool" and c0["N"] != 2 * c0["n"] else (2 * n if kind == "bool" else n)
+                c0["n"] = n
+                pool.append(c0)
     for c in pool:
         tried += 1
         why = real_failure(c)
